@@ -48,7 +48,7 @@ func c18sum(c *an.Ctx) {
 			if !ok || !isParam(fa.X, fn, 0) {
 				return
 			}
-			stores[an.FieldOf(fa).Name()] = s.Val
+			stores[an.FName(an.FieldOf(fa))] = s.Val
 		})
 		for i := 0; i < st.NumFields(); i++ {
 			f := st.Field(i)
@@ -56,7 +56,7 @@ func c18sum(c *an.Ctx) {
 			if !ok || b.Info()&types.IsInteger == 0 {
 				continue
 			}
-			v, has := stores[f.Name()]
+			v, has := stores[an.FName(f)]
 			good := false
 			if has {
 				if add, ok := v.(*ssa.BinOp); ok && add.Op == token.ADD {
@@ -342,13 +342,17 @@ func c18fanin(c *an.Ctx) {
 					// true edge returns a non-PartialErr error
 					for _, t := range an.BoolTests(b) {
 						okA := true
-						q := &an.PathQ{Fn: fn, StartEdges: []an.Edge{t.True}, Sink: func(x ssa.Instruction, _ *an.PathState) bool {
+						q := &an.PathQ{Fn: fn, StartEdges: []an.Edge{t.True}, Sink: func(x ssa.Instruction, ps *an.PathState) bool {
 							r, ok := x.(*ssa.Return)
 							if !ok {
 								return false
 							}
+							// the error this path returns (a single-exit `return result, err` is resolved per path)
 							e := errOperand(r)
-							call, isCall := an.Strip(e).(*ssa.Call)
+							if sel := ps.Selected(e); sel != nil {
+								e = sel
+							}
+							call, isCall := an.Strip(an.Resolve(e)).(*ssa.Call)
 							return !(isCall && an.StdCallee(call, "fmt", "Errorf"))
 						}}
 						if _, bad := q.Find(); bad {
